@@ -1,6 +1,7 @@
 import Qhttp.Model.Http
 import Qhttp.Lemmas.C19Step
 import Qhttp.Lemmas.C19After
+import Qhttp.Lemmas.C19MarkRun
 /-
   C19 — one request per connection; nothing is sent or routed after the close.
 -/
@@ -415,5 +416,456 @@ example : holdsStrict ⟨exApp, exEvents⟩ tamperedLog = false := by decide +ke
 /-- a routing entry alone after the close is caught by `routedAfterClose` only when it is the
     first one (`holds` counts `rt` but does not place it) -/
 example : routedAfterClose [.ev 0, .hp, .tc, .dc, .rt 1 [47, 97]] = true := by decide
+
+end Qhttp.C19
+
+/-! ## The application's own record of having closed the socket: `holdsMarked`
+
+  `holdsMarked` adds two clauses to `holdsStrict`, both about the application's record
+  `Obs.misc 50 _` (`mark` in the scenario language): nothing is written after the first record
+  (`wroteAfterAppClose`), and a record means the library has closed the transport (`appCloseShuts`).
+  Both are facts about the library only when the record is truthful, i.e. written after a call that
+  closes the socket.  `marksOK` says so for a list of API calls (a reaction `app.onXx s`):
+  every record has a closing call (`close`, `writeError`, `writeRedirect`, `writeJson`) somewhere
+  before it in the same list; `evMarksOK` says so for the idle-context calls of the event list:
+  every `.api (note record)` event has an `.api closing-call` event somewhere before it.
+  (The generators place the record immediately after the closing call, `marksAdjacent` /
+  `evMarksAdjacent`; that is a special case: `marksAdjacent_marksOK`, `evMarksAdjacent_evMarksOK`.)
+
+  Why the weaker "somewhere before" suffices in the model: a call on a Socket object that is gone
+  records nothing (neither does the record); a closing call on a live one ends in `tcpClose`, after
+  which the transport's device is closed for good; `tcpWrite` reaches the wire only through an open
+  device; and the device flag is `false` exactly when one `tc` is in the history.
+
+  Without the hypothesis the statement is false (`mxApp`: a reaction that writes the record and
+  closes nothing — `not_holdsMarked_run_unmarked`).
+-/
+
+namespace Qhttp.C19
+open Qhttp
+
+/-- the application writes its record -/
+def isMarkOp : ApiOp → Bool
+  | .note o => isMark o
+  | _ => false
+
+/-- the API calls that close the socket -/
+def closesOp : ApiOp → Bool
+  | .close => true
+  | .err _ _ => true
+  | .redir _ _ => true
+  | .json _ _ => true
+  | _ => false
+
+/-- every record of the list has a closing call before it in the list (`closed`: one was issued
+    before the list started) -/
+def marksFrom (closed : Bool) : List ApiOp → Bool
+  | [] => true
+  | op :: rest => (!isMarkOp op || closed) && marksFrom (closed || closesOp op) rest
+
+/-- "marks are placed after closing ops", for one list of API calls -/
+def marksOK (ops : List ApiOp) : Bool := marksFrom false ops
+
+/-- the same for the idle-context calls of the event list; other events in between do not matter -/
+def evMarksFrom (closed : Bool) : List Event → Bool
+  | [] => true
+  | .api op :: rest => (!isMarkOp op || closed) && evMarksFrom (closed || closesOp op) rest
+  | _ :: rest => evMarksFrom closed rest
+
+def evMarksOK (evs : List Event) : Bool := evMarksFrom false evs
+
+/-- every reaction of the application places its records after closing calls -/
+structure AppMarksOK (app : App) : Prop where
+  hp  : ∀ s, marksOK (app.onHp s) = true
+  rr  : ∀ s, marksOK (app.onRr s) = true
+  rcf : ∀ s, marksOK (app.onRcf s) = true
+  bw  : ∀ s, marksOK (app.onBw s) = true
+  dc  : ∀ s, marksOK (app.onDc s) = true
+
+/-! ### what the generators emit: the record immediately after the closing call -/
+
+/-- every record is immediately preceded by a closing call (`prev`: the call before the list) -/
+def marksAdjFrom (prev : Bool) : List ApiOp → Bool
+  | [] => true
+  | op :: rest => (!isMarkOp op || prev) && marksAdjFrom (closesOp op) rest
+
+def marksAdjacent (ops : List ApiOp) : Bool := marksAdjFrom false ops
+
+/-- every `.api record` event is immediately preceded by an `.api closing-call` event -/
+def evMarksAdjFrom (prev : Bool) : List Event → Bool
+  | [] => true
+  | .api op :: rest => (!isMarkOp op || prev) && evMarksAdjFrom (closesOp op) rest
+  | _ :: rest => evMarksAdjFrom false rest
+
+def evMarksAdjacent (evs : List Event) : Bool := evMarksAdjFrom false evs
+
+theorem marksAdjFrom_marksFrom (ops : List ApiOp) (prev closed : Bool)
+    (hp : prev = true → closed = true) (h : marksAdjFrom prev ops = true) :
+    marksFrom closed ops = true := by
+  induction ops generalizing prev closed with
+  | nil => rfl
+  | cons op ops ih =>
+    simp only [marksAdjFrom, marksFrom, Bool.and_eq_true, Bool.or_eq_true,
+      Bool.not_eq_true'] at h ⊢
+    refine ⟨?_, ih (closesOp op) _ (fun x => by simp [x]) h.2⟩
+    rcases h.1 with h1 | h1
+    · exact Or.inl h1
+    · exact Or.inr (hp h1)
+
+theorem marksAdjacent_marksOK (ops : List ApiOp) (h : marksAdjacent ops = true) :
+    marksOK ops = true :=
+  marksAdjFrom_marksFrom ops false false id h
+
+theorem evMarksAdjFrom_evMarksFrom (evs : List Event) (prev closed : Bool)
+    (hp : prev = true → closed = true) (h : evMarksAdjFrom prev evs = true) :
+    evMarksFrom closed evs = true := by
+  induction evs generalizing prev closed with
+  | nil => rfl
+  | cons e evs ih =>
+    cases e with
+    | api op =>
+      simp only [evMarksAdjFrom, evMarksFrom, Bool.and_eq_true, Bool.or_eq_true,
+        Bool.not_eq_true'] at h ⊢
+      refine ⟨?_, ih (closesOp op) _ (fun x => by simp [x]) h.2⟩
+      rcases h.1 with h1 | h1
+      · exact Or.inl h1
+      · exact Or.inr (hp h1)
+    | _ =>
+      simp only [evMarksAdjFrom, evMarksFrom] at h ⊢
+      exact ih false closed (fun x => by cases x) h
+
+theorem evMarksAdjacent_evMarksOK (evs : List Event) (h : evMarksAdjacent evs = true) :
+    evMarksOK evs = true :=
+  evMarksAdjFrom_evMarksFrom evs false false id h
+
+/-! ### the definitions above and the ones the lemmas are stated with coincide -/
+
+theorem isMark_eq : isMark = C19L.isMark := by
+  funext o; cases o <;> rfl
+
+theorem wroteAfterAppClose_eq (l : List Obs) : wroteAfterAppClose l = C19L.wac l := by
+  unfold wroteAfterAppClose C19L.wac
+  rw [isMark_eq]
+
+theorem isMarkOp_eq : isMarkOp = C19L.markOp := by
+  funext op; cases op <;> simp [isMarkOp, C19L.markOp, isMark_eq]
+
+theorem closesOp_eq : closesOp = C19L.closesOp := by
+  funext op; cases op <;> rfl
+
+theorem marksFrom_eq (c : Bool) (ops : List ApiOp) : marksFrom c ops = C19L.marksFrom c ops := by
+  induction ops generalizing c with
+  | nil => rfl
+  | cons op ops ih => simp only [marksFrom, C19L.marksFrom, ih, isMarkOp_eq, closesOp_eq]
+
+/-- a quiet call does not fake a write -/
+theorem qOp_nwOp {op : ApiOp} (h : C19L.qOp op = true) : C19L.nwOp op = true := by
+  cases op <;> try rfl
+  rename_i o
+  simp only [C19L.qOp] at h
+  simp [C19L.nwOp, (C19L.quiet_facts h).2.2.1]
+
+theorem hOp_nwOp {op : ApiOp} (h : C19L.hOp op = true) : C19L.nwOp op = true := by
+  simp only [C19L.hOp, Bool.or_eq_true] at h
+  rcases h with h | h
+  · cases op <;> simp only [C19L.rtNote, Bool.false_eq_true] at h
+    rename_i o
+    cases o <;> simp only [Bool.false_eq_true] at h
+    rfl
+  · exact qOp_nwOp h
+
+theorem all_nwOp_of_qOp {ops : List ApiOp} (h : ops.all C19L.qOp = true) :
+    ops.all C19L.nwOp = true := by
+  rw [List.all_eq_true] at h ⊢
+  exact fun op hop => qOp_nwOp (h op hop)
+
+theorem all_nwOp_of_hOp {ops : List ApiOp} (h : ops.all C19L.hOp = true) :
+    ops.all C19L.nwOp = true := by
+  rw [List.all_eq_true] at h ⊢
+  exact fun op hop => hOp_nwOp (h op hop)
+
+theorem okFrom_of {ops : List ApiOp} (h1 : ops.all C19L.nwOp = true) (h2 : marksOK ops = true) :
+    C19L.okFrom false ops = true := by
+  unfold marksOK at h2
+  rw [marksFrom_eq] at h2
+  simp [C19L.okFrom, h1, h2]
+
+theorem AppMarksOK.toL {app : App} (h : AppOK app) (hm : AppMarksOK app) : C19L.AppM app where
+  hp := fun s => okFrom_of (all_nwOp_of_hOp (h.toL.hp s).1) (hm.hp s)
+  rr := fun s => okFrom_of (all_nwOp_of_qOp (h.toL.rr s)) (hm.rr s)
+  rcf := fun s => okFrom_of (all_nwOp_of_qOp (h.toL.rcf s)) (hm.rcf s)
+  bw := fun s => okFrom_of (all_nwOp_of_qOp (h.toL.bw s)) (hm.bw s)
+  dc := fun s => okFrom_of (all_nwOp_of_qOp (h.toL.dc s)) (hm.dc s)
+
+theorem evsFrom_of (evs : List Event) (c : Bool) (h1 : evs.all evOK = true)
+    (h2 : evMarksFrom c evs = true) : C19L.evsFrom c evs = true := by
+  induction evs generalizing c with
+  | nil => rfl
+  | cons e evs ih =>
+    simp only [List.all_cons, Bool.and_eq_true] at h1
+    cases e with
+    | api op =>
+      simp only [evMarksFrom, Bool.and_eq_true] at h2
+      have hq : C19L.nwOp op = true := by
+        have := h1.1
+        simp only [evOK, quietOp_eq] at this
+        exact qOp_nwOp this
+      simp only [C19L.evsFrom, C19L.evOKM, C19L.evC, Bool.and_eq_true]
+      rw [← isMarkOp_eq, ← closesOp_eq]
+      exact ⟨⟨hq, h2.1⟩, ih _ h1.2 h2.2⟩
+    | _ =>
+      simp only [evMarksFrom] at h2
+      simp only [C19L.evsFrom, C19L.evOKM, C19L.evC, Bool.true_and]
+      exact ih _ h1.2 h2
+
+/-! ### the run -/
+
+/-- at the end of every run: nothing was written after the application's first record, and a
+    record in the history means the transport has been closed exactly once -/
+theorem run_marked (env : Env) (app : App) (evs : List Event)
+    (happ : AppOK app) (hevs : evs.all evOK = true)
+    (hmk : AppMarksOK app) (hem : evMarksOK evs = true) :
+    wroteAfterAppClose (Scenario.run env ⟨app, evs⟩).log = false ∧
+    appCloseShuts (Scenario.run env ⟨app, evs⟩).log = true := by
+  have hM := C19L.run_MS (env := env) (AppMarksOK.toL happ hmk) evs (evsFrom_of evs false hevs hem)
+  have hevs' := hevs
+  rw [evOK_eq] at hevs'
+  have hK := C19L.run_KS (env := env) happ.toL evs hevs'
+  simp only [Scenario.run]
+  refine ⟨by rw [wroteAfterAppClose_eq]; exact hM.2, ?_⟩
+  unfold appCloseShuts
+  rw [isMark_eq]
+  cases hm : (Sock.run env app evs).log.any C19L.isMark
+  · rfl
+  · have := C19L.KS_tc hK (hM.1 hm)
+    simp [this]
+
+/-- every environment, every event list, every application of the strict class whose records are
+    placed after closing calls: the predicate the driver evaluates holds on the model's history -/
+theorem holdsMarked_run (env : Env) (app : App) (evs : List Event)
+    (happ : AppOKStrict app) (hevs : evs.all evOK = true)
+    (hmk : AppMarksOK app) (hem : evMarksOK evs = true) :
+    holdsMarked ⟨app, evs⟩ (Scenario.run env ⟨app, evs⟩).log = true := by
+  unfold holdsMarked
+  have h := run_marked env app evs happ.ok hevs hmk hem
+  rw [holdsStrict_run env app evs happ hevs, h.1, h.2]
+  rfl
+
+/-- the form the generators use: every record immediately after a closing call -/
+theorem holdsMarked_run_adjacent (env : Env) (app : App) (evs : List Event)
+    (happ : AppOKStrict app) (hevs : evs.all evOK = true)
+    (hhp : ∀ s, marksAdjacent (app.onHp s) = true) (hrr : ∀ s, marksAdjacent (app.onRr s) = true)
+    (hrcf : ∀ s, marksAdjacent (app.onRcf s) = true) (hbw : ∀ s, marksAdjacent (app.onBw s) = true)
+    (hdc : ∀ s, marksAdjacent (app.onDc s) = true) (hem : evMarksAdjacent evs = true) :
+    holdsMarked ⟨app, evs⟩ (Scenario.run env ⟨app, evs⟩).log = true :=
+  holdsMarked_run env app evs happ hevs
+    ⟨fun s => marksAdjacent_marksOK _ (hhp s), fun s => marksAdjacent_marksOK _ (hrr s),
+     fun s => marksAdjacent_marksOK _ (hrcf s), fun s => marksAdjacent_marksOK _ (hbw s),
+     fun s => marksAdjacent_marksOK _ (hdc s)⟩
+    (evMarksAdjacent_evMarksOK evs hem)
+
+/-! ### what the two clauses mean -/
+
+theorem isMark_notW {o : Obs} (h : isMark o = true) : Obs.isW o = false := by
+  rw [isMark_eq] at h
+  exact C19L.mark_notW h
+
+/-- `wroteAfterAppClose l = false` iff no `w` follows any record of the history -/
+theorem wroteAfterAppClose_false_iff (l : List Obs) :
+    wroteAfterAppClose l = false ↔
+      ∀ pre m post, l = pre ++ m :: post → isMark m = true → ∀ o ∈ post, Obs.isW o = false := by
+  unfold wroteAfterAppClose
+  induction l with
+  | nil =>
+    constructor
+    · intro _ pre m post h; cases pre <;> cases h
+    · intro _; rfl
+  | cons x l ih =>
+    by_cases hx : isMark x = true
+    · simp only [List.dropWhile_cons, hx, Bool.not_true, Bool.false_eq_true, ↓reduceIte]
+      constructor
+      · intro h pre m post hl _ o ho
+        have hmem : o ∈ x :: l := by
+          rw [hl]; exact List.mem_append_right _ (List.mem_cons_of_mem _ ho)
+        exact (List.any_eq_false.mp h) o hmem |> fun t => by simpa using t
+      · intro h
+        have hl : l.any Obs.isW = false := by
+          rw [List.any_eq_false]
+          intro o ho
+          simp [h [] x l rfl hx o ho]
+        rw [List.any_cons, hl, isMark_notW hx]; rfl
+    · have hx' : isMark x = false := by simpa using hx
+      simp only [List.dropWhile_cons, hx', Bool.not_false, ↓reduceIte]
+      rw [ih]
+      constructor
+      · intro h pre m post hl hm
+        cases pre with
+        | nil =>
+          simp only [List.nil_append, List.cons.injEq] at hl
+          rw [← hl.1, hx'] at hm; cases hm
+        | cons y pre =>
+          simp only [List.cons_append, List.cons.injEq] at hl
+          exact h pre m post hl.2 hm
+      · intro h pre m post hl
+        exact h (x :: pre) m post (by rw [hl]; rfl)
+
+/-- `appCloseShuts`, spelled out -/
+theorem appCloseShuts_iff (obs : List Obs) :
+    appCloseShuts obs = true ↔ (obs.any isMark = true → Obs.countP Obs.isTc obs = 1) := by
+  unfold appCloseShuts
+  cases obs.any isMark <;> simp
+
+/-- `holdsMarked`, spelled out -/
+theorem holdsMarked_iff (sc : Scenario) (obs : List Obs) :
+    holdsMarked sc obs = true ↔
+      holdsStrict sc obs = true ∧
+      (∀ pre m post, obs = pre ++ m :: post → isMark m = true → ∀ o ∈ post, Obs.isW o = false) ∧
+      (obs.any isMark = true → Obs.countP Obs.isTc obs = 1) := by
+  unfold holdsMarked
+  rw [Bool.and_eq_true, Bool.and_eq_true, ← wroteAfterAppClose_false_iff, ← appCloseShuts_iff]
+  simp [and_assoc]
+
+/-- the property's wording: once the application has closed the HTTP socket (a record exists)
+    and every written byte has been acknowledged, the client has observed the shutdown, once -/
+theorem marked_shutdown (sc : Scenario) (obs : List Obs) (h : holds sc obs = true)
+    (hs : appCloseShuts obs = true) (hm : obs.any isMark = true)
+    (hp : pending sc.events obs 0 0 = 0) : Obs.countP Obs.isDc obs = 1 :=
+  ((holds_iff sc obs).mp h).2.2.2.2.2 ((appCloseShuts_iff obs).mp hs hm) hp
+
+/-- the same at the end of every run of the model -/
+theorem marked_shutdown_run (env : Env) (app : App) (evs : List Event)
+    (happ : AppOK app) (hevs : evs.all evOK = true)
+    (hmk : AppMarksOK app) (hem : evMarksOK evs = true)
+    (hm : (Scenario.run env ⟨app, evs⟩).log.any isMark = true)
+    (hp : pending evs (Scenario.run env ⟨app, evs⟩).log 0 0 = 0) :
+    Obs.countP Obs.isDc (Scenario.run env ⟨app, evs⟩).log = 1 :=
+  marked_shutdown ⟨app, evs⟩ _ (holds_run env app evs happ hevs)
+    (run_marked env app evs happ hevs hmk hem).2 hm hp
+
+/-! ### non-vacuity -/
+
+/-- Bool check on a scripted application -/
+def scriptMarksOK (sc : Script) : Bool :=
+  marksOK sc.onHp && marksOK sc.onRr && marksOK sc.onRcf && marksOK sc.onBw && marksOK sc.onDc
+
+theorem Script.appMarksOK (sc : Script) (h : scriptMarksOK sc = true) : AppMarksOK sc.app := by
+  simp only [scriptMarksOK, Bool.and_eq_true] at h
+  obtain ⟨⟨⟨⟨h1, h2⟩, h3⟩, h4⟩, h5⟩ := h
+  exact ⟨fun _ => h1, fun _ => h2, fun _ => h3, fun _ => h4, fun _ => h5⟩
+
+def mark : ApiOp := .note (.misc 50 [])
+
+/-- the Server glue of `exApp`, recording each point at which it has closed the socket -/
+def mkApp : App :=
+  { onHp := fun s => [.note (.rt 1 s.path), .write (lit ['h','e','l','l','o']), .close, mark],
+    onRr := fun _ => [.readAll],
+    onBw := fun _ => [.avail],
+    onDc := fun _ => [.write (lit ['h','e','l','l','o']), .close, mark] }
+
+theorem mkApp_strict : AppOKStrict mkApp :=
+  ⟨⟨fun _ => by simp [mkApp, mark, hpOp, isRtNote, quietOp, quietObs, List.filter],
+    fun _ => rfl, fun _ => rfl, fun _ => rfl, fun _ => rfl⟩, fun _ => rfl⟩
+
+theorem mkApp_marks : AppMarksOK mkApp :=
+  ⟨fun _ => rfl, fun _ => rfl, fun _ => rfl, fun _ => rfl, fun _ => rfl⟩
+
+def mkScript : Script :=
+  { onHp := [.note (.rt 1 [47, 97]), .write (lit ['h','e','l','l','o']), .err 403 none, mark],
+    onDc := [.close, mark, .write (lit ['x'])] }
+
+example : AppOKStrict mkScript.app := Script.appOKStrict _ (by decide)
+example : AppMarksOK mkScript.app := Script.appMarksOK _ (by decide)
+example : marksAdjacent mkScript.onHp = true ∧ marksAdjacent mkScript.onDc = true := by decide
+
+/-- two pipelined requests cut inside the first blank line, then late API calls from idle context
+    (each closing call followed by the record), late input, a partial acknowledgement, the peer's
+    close and the final acknowledgement -/
+def mkEvents : List Event :=
+  [.new, .feed (lit ['G','E','T',' ','/','a',' ','H','T','T','P','/','1','.','1','\r','\n','\r']), .feed (lit ['\n','G','E','T',' ','/','b',' ','H','T','T','P','/','1','.','1','\r','\n','\r','\n']),
+   .api (.write (lit ['a','f','t','e','r'])), .api .wh, .api (.err 500 none), .api mark,
+   .feed (lit ['G','E','T',' ','/','l','a','t','e',' ','H','T','T','P','/','1','.','1','\r','\n','\r','\n']), .ack 5, .api .close, .api mark,
+   .peerClose, .ackAll]
+
+example : mkEvents.all evOK = true := by decide
+example : evMarksOK mkEvents = true := by decide
+example : evMarksAdjacent mkEvents = true := by decide
+
+/-- the hypotheses of `holdsMarked_run` are satisfiable, and its conclusion on this run -/
+example : holdsMarked ⟨mkApp, mkEvents⟩ (Scenario.run exEnv ⟨mkApp, mkEvents⟩).log = true :=
+  holdsMarked_run exEnv mkApp mkEvents mkApp_strict (by decide) mkApp_marks (by decide)
+
+example : holdsMarked ⟨mkApp, mkEvents⟩ (Scenario.run exEnv ⟨mkApp, mkEvents⟩).log = true := by
+  decide +kernel
+
+/-- the run above exercises all three clauses: records are in the history (four of them: the
+    `headersParsed` reaction, the `disconnected` reaction, two from idle context), bytes were
+    written before the first one, the transport was closed once and the shutdown observed once -/
+example :
+    let l := (Scenario.run exEnv ⟨mkApp, mkEvents⟩).log
+    Obs.countP isMark l = 4 ∧ Obs.countP Obs.isW l = 2 ∧ Obs.countP Obs.isTc l = 1 ∧
+    Obs.countP Obs.isDc l = 1 ∧ Obs.countP Obs.isHp l = 1 ∧ pending mkEvents l 0 0 = 0 ∧
+    wroteAfterAppClose l = false ∧ appCloseShuts l = true := by
+  decide +kernel
+
+/-- an idle connection closed by the application from idle context: written bytes, the close,
+    the record, a late write that reaches nothing, and a record attempted after the Socket object
+    is gone (it leaves no trace) -/
+def idleEvents : List Event :=
+  [.new, .api (.write (lit ['i','d','l','e'])), .api .close, .api mark,
+   .api (.write (lit ['a','f','t','e','r'])), .ackAll, .turn, .api mark]
+
+example : idleEvents.all evOK = true ∧ evMarksOK idleEvents = true := by decide
+
+example : (Scenario.run exEnv ⟨{}, idleEvents⟩).log
+    = [.ev 0, .ev 1, .w (lit ['H','T','T','P','/','1','.','0',' ','2','0','0',' ','O','K','\r','\n','\r','\n']), .w (lit ['i','d','l','e']),
+       .ev 2, .tc, .ev 3, .misc 50 [], .ev 4, .ev 5, .dc, .ev 6, .del] := by decide +kernel
+
+example : holdsMarked ⟨{}, idleEvents⟩ (Scenario.run exEnv ⟨{}, idleEvents⟩).log = true := by
+  decide +kernel
+
+/-- a history in which the late write reached the wire (what a library that keeps the transport
+    usable after `Socket::close` would produce): caught by `wroteAfterAppClose` -/
+example : wroteAfterAppClose
+    ((Scenario.run exEnv ⟨{}, idleEvents⟩).log ++ [.w (lit ['a','f','t','e','r'])]) = true := by
+  decide +kernel
+
+/-- a history in which the application's close did not shut the transport: caught by
+    `appCloseShuts` (and by nothing in `holdsStrict`) -/
+example : holdsStrict ⟨{}, [.new, .api .close, .api mark]⟩ [.ev 0, .ev 1, .ev 2, .misc 50 []] = true ∧
+    appCloseShuts [.ev 0, .ev 1, .ev 2, .misc 50 []] = false ∧
+    holdsMarked ⟨{}, [.new, .api .close, .api mark]⟩ [.ev 0, .ev 1, .ev 2, .misc 50 []] = false := by
+  decide
+
+/-! ### the hypothesis on the records is needed -/
+
+/-- allowed by `AppOKStrict`: record "I have closed the socket" without closing anything, and
+    write afterwards -/
+def mxApp : App := { onHp := fun _ => [mark, .write (lit ['x'])] }
+
+theorem mxApp_strict : AppOKStrict mxApp :=
+  ⟨⟨fun _ => by simp [mxApp, mark, hpOp, isRtNote, quietOp, quietObs, List.filter],
+    fun _ => rfl, fun _ => rfl, fun _ => rfl, fun _ => rfl⟩, fun _ => rfl⟩
+
+example : marksOK (mxApp.onHp {}) = false := by decide
+
+theorem mx_holdsStrict :
+    holdsStrict ⟨mxApp, cxEvents⟩ (Scenario.run exEnv ⟨mxApp, cxEvents⟩).log = true := by
+  decide +kernel
+
+/-- both new clauses fail on its history -/
+theorem mx_clauses :
+    wroteAfterAppClose (Scenario.run exEnv ⟨mxApp, cxEvents⟩).log = true ∧
+    appCloseShuts (Scenario.run exEnv ⟨mxApp, cxEvents⟩).log = false := by
+  decide +kernel
+
+/-- `holdsMarked_run` cannot be had without the hypothesis on the records -/
+theorem not_holdsMarked_run_unmarked :
+    ¬ ∀ (env : Env) (app : App) (evs : List Event), AppOKStrict app → evs.all evOK = true →
+        holdsMarked ⟨app, evs⟩ (Scenario.run env ⟨app, evs⟩).log = true := by
+  intro h
+  have := h exEnv mxApp cxEvents mxApp_strict (by decide)
+  unfold holdsMarked at this
+  rw [mx_clauses.1] at this
+  simp at this
 
 end Qhttp.C19
